@@ -253,6 +253,15 @@ func property(t *rapid.T) {
 		_, _, _ = formatBoth(big, h.W)
 		vk.Class("after-oversized-line")
 	}
+	if rapid.IntRange(0, 3).Draw(t, "otherAppenderFirst") == 0 {
+		// the same event went to another appender of its logger first, whose layout has another
+		// width (a console at 20, a file at 200): each layout clips for itself
+		w2 := rapid.SampledFrom([]int{20, 200, 3, 48, 0}).Draw(t, "otherWidth")
+		if w2 != h.W && !(w2 < 3 && known("C08:fileline-width-below-3-panics")) {
+			_, _, _ = formatBoth(e, w2)
+			vk.Class("same-event-through-another-width-first")
+		}
+	}
 	jl, tl, p := formatBoth(e, h.W)
 	if p != nil {
 		t.Fatalf("VERIF-VIOLATION C08: formatting panicked with width %d: %v\nevent: %s", h.W, p, desc)
